@@ -156,9 +156,8 @@ Lemma wp_now_decides o p dd c s1 : days = Some dd -> env_now env = None -> d_las
 Proof.
   intros Hd En Hl. unfold call_date. apply wp_bind. apply wp_call. intros r Hv.
   destruct r as [| | | | | |now|e]; try discriminate.
-  - eexists. split; [unfold decision_step; rewrite Hd, Hl; reflexivity|]. wret.
-    apply tail_decided. intros Ho. rewrite Ho. apply approve_approved.
-  - exists s1. split; [unfold decision_step; rewrite Hd; reflexivity|]. exact I.
+  eexists. split; [unfold decision_step; rewrite Hd, Hl; reflexivity|]. wret.
+  apply tail_decided. intros Ho. rewrite Ho. apply approve_approved.
 Qed.
 
 Lemma empty_one_info_decided o p : eo_days o = days -> eo_environ o = env -> asafe step (empty_one_info o p) (fun _ => True).
